@@ -962,6 +962,7 @@ func c04HiddenFilter(c *Ctx, bi bodyImpl, tname string) int {
 			regions := map[string][]*ssa.BasicBlock{}
 			lookups := map[string]token.Pos{}
 			undecided := ""
+			foundBits := map[string][]ssa.Value{}
 			for _, b := range scc {
 				for _, ins := range b.Instrs {
 					if call, ok := ins.(*ssa.Call); ok {
@@ -1012,6 +1013,7 @@ func c04HiddenFilter(c *Ctx, bi bodyImpl, tname string) int {
 						if !ok || ex.Index != 1 {
 							continue
 						}
+						foundBits[k] = append(foundBits[k], ex)
 						for _, rr := range *ex.Referrers() {
 							var iff *ssa.If
 							neg := false
@@ -1028,9 +1030,8 @@ func c04HiddenFilter(c *Ctx, bi bodyImpl, tname string) int {
 								}
 							}
 							if iff == nil {
-								if _, isDbg := rr.(*ssa.DebugRef); !isDbg {
-									undecided = "the result of the hidden-set lookup is used other than in a branch"
-								}
+								// used as a value (`exists && !hidden` in a switch case, a local): decided below
+								// by evaluating the branch conditions with the found bit assumed true
 								continue
 							}
 							side := 1 // not found: false edge
@@ -1084,6 +1085,17 @@ func c04HiddenFilter(c *Ctx, bi bodyImpl, tname string) int {
 					ok := false
 					for _, r := range regions[kind] {
 						if r == b || r.Dominates(b) {
+							ok = true
+						}
+					}
+					if !ok && len(foundBits[kind]) > 0 {
+						// with every lookup of this kind answering "hidden", the insertion must be unreachable
+						bv := map[ssa.Value]bool{}
+						for _, fb := range foundBits[kind] {
+							bv[fb] = true
+						}
+						run := (&condAtoms{boolVals: bv}).run(fn, 0)
+						if !run.reach[b] {
 							ok = true
 						}
 					}
